@@ -89,3 +89,29 @@ Theorem C13_nd_cap_components (kdim : nat) (m : Z) (k : key) : (0 < kdim)%nat ->
   within kdim m k = true -> forall x, In x k -> (Z.abs x <= m)%Z.
 Proof. exact (within_single kdim m k). Qed.
 Print Assumptions C13_nd_cap_components.
+
+(* real / complex numbers are imported only here, after the algebraic theorems *)
+From Coq Require Import Reals.
+From Coquelicot Require Import Coquelicot.
+From EPG Require PruneBound.
+
+(* (9) pruning bound, ONE pruning step (PARTIAL: the property's bound 2*eps*cumulative-state-count over a whole
+   program also needs the propagation of the removed amplitudes through the following operators, which is not
+   mechanised): a value  sum_j chi_j F_j  with |chi_j| <= 1 (exp(i k_j x); 1 at position 0) reconstructed from the
+   states changes by at most eps per removed state when every removed state has |F_j| <= eps *)
+Theorem C13_prune_value_bound_step_partial (eps : R) (m : list bool) (l : list (C * C)) :
+  (0 <= eps)%R -> length m = length l ->
+  (forall j, (j < length l)%nat -> (Cmod (fst (nth j l (RtoC 0, RtoC 0))) <= 1)%R) ->
+  (forall j, (j < length l)%nat -> nth j m true = false -> (Cmod (snd (nth j l (RtoC 0, RtoC 0))) <= eps)%R) ->
+  (Cmod (Cminus (PruneBound.psum l) (PruneBound.psum (select m l))) <= eps * INR (PruneBound.nremoved m))%R.
+Proof. exact (PruneBound.prune_value_bound eps m l). Qed.
+Print Assumptions C13_prune_value_bound_step_partial.
+
+(* (10) with tolerance 0 (only exact zeros removed) the reconstructed value is unchanged *)
+Theorem C13_prune_tol0_exact (m : list bool) (l : list (C * C)) :
+  length m = length l ->
+  (forall j, (j < length l)%nat -> (Cmod (fst (nth j l (RtoC 0, RtoC 0))) <= 1)%R) ->
+  (forall j, (j < length l)%nat -> nth j m true = false -> (Cmod (snd (nth j l (RtoC 0, RtoC 0))) <= 0)%R) ->
+  PruneBound.psum (select m l) = PruneBound.psum l.
+Proof. exact (PruneBound.prune_value_exact_tol0 m l). Qed.
+Print Assumptions C13_prune_tol0_exact.
